@@ -446,6 +446,11 @@ type Interp struct {
 	nest     int // current if-conversion nesting
 	pdom     map[*ssa.Function]map[*ssa.BasicBlock]*ssa.BasicBlock
 	Models   map[string]func(it *Interp, st *state, call *ssa.CallCommon, args []Value) (Value, bool)
+	// UseInitValues: read-only package-level variables (no store outside init, checked on the
+	// whole program) are given the values their package initialiser stores into them.
+	UseInitValues bool
+	initDone      map[*ssa.Package]bool
+	inInit        bool
 	// Obligations: side conditions a model relied on (e.g. "this number has two decimal digits");
 	// the property code must show each of them valid under its premise.
 	Obligations []*Node
@@ -1182,6 +1187,9 @@ func (it *Interp) val(st *state, v ssa.Value) Value {
 		return it.constVal(x)
 	case *ssa.Global:
 		o := it.globalObj(x)
+		if it.UseInitValues {
+			it.initPackage(st, x)
+		}
 		return Ptr{Obj: o}
 	case *ssa.Function:
 		return FuncV{x}
@@ -1196,6 +1204,114 @@ func (it *Interp) val(st *state, v ssa.Value) Value {
 }
 
 var globalObjs = map[*ssa.Global]*MemObj{}
+
+// writtenGlobals: package-level variables stored to (directly or through a derived address)
+// outside their package initialiser, computed once per program.
+var writtenGlobalsCache = map[*ssa.Program]map[*ssa.Global]bool{}
+
+func writtenGlobals(w *World) map[*ssa.Global]bool {
+	if m, ok := writtenGlobalsCache[w.Prog]; ok {
+		return m
+	}
+	m := map[*ssa.Global]bool{}
+	for fn := range w.AllFuncs() {
+		if fn.Blocks == nil || fn.Name() == "init" || strings.HasPrefix(fn.Name(), "init#") {
+			continue
+		}
+		for _, b := range fn.Blocks {
+			for _, ins := range b.Instrs {
+				mark := func(v ssa.Value) {
+					// follow address arithmetic and loads: memory reached through the value of a
+					// global (slice backing array, pointee) counts as the global's
+					for i := 0; i < 32; i++ {
+						v = addrBase(v)
+						if u, ok := v.(*ssa.UnOp); ok && u.Op == token.MUL {
+							v = u.X
+							continue
+						}
+						break
+					}
+					if g, ok := v.(*ssa.Global); ok {
+						m[g] = true
+					}
+				}
+				switch x := ins.(type) {
+				case *ssa.Store:
+					mark(x.Addr)
+				case ssa.CallInstruction:
+					// the address (or a slice) of a global handed to a callee may be written there
+					args := x.Common().Args
+					if b, isB := x.Common().Value.(*ssa.Builtin); isB {
+						switch b.Name() {
+						case "copy", "append":
+							args = args[:1] // only the destination can be written
+						default:
+							args = nil // len, cap, ... read only
+						}
+					}
+					for _, a := range args {
+						switch a.Type().Underlying().(type) {
+						case *types.Pointer, *types.Slice, *types.Map:
+							mark(a)
+						}
+					}
+				}
+			}
+		}
+	}
+	writtenGlobalsCache[w.Prog] = m
+	return m
+}
+
+// initPackage runs the initialiser of g's package once per interpreter, in the current state, so
+// that constant tables and other read-only variables have their initial contents.  Variables
+// written outside init keep their unknown (lazy) contents.
+func (it *Interp) initPackage(st *state, g *ssa.Global) {
+	p := g.Pkg
+	if p == nil || it.initDone[p] || !IsRepoPkg(p.Pkg) {
+		return
+	}
+	if it.initDone == nil {
+		it.initDone = map[*ssa.Package]bool{}
+	}
+	it.initDone[p] = true
+	initFn := p.Func("init")
+	if initFn == nil || initFn.Blocks == nil {
+		return
+	}
+	saveUnsup, saveFuel, saveWrites := it.Unsup, it.Fuel, it.Writes
+	it.Writes = map[string]bool{}
+	it.Fuel = 200000
+	if guard, ok := p.Members["init$guard"].(*ssa.Global); ok {
+		o := it.globalObj(guard)
+		if st.mem[o] == nil {
+			st.mem[o] = map[string]Value{}
+		}
+		st.mem[o][""] = it.constBV(0, 1)
+	}
+	prev := it.Models["#init"]
+	it.inInit = true
+	it.Call(initFn, nil, st, 0)
+	it.inInit = false
+	_ = prev
+	// variables that are written elsewhere do not keep their initial contents
+	wr := writtenGlobals(it.w)
+	for _, m := range p.Members {
+		if gv, ok := m.(*ssa.Global); ok && wr[gv] {
+			o := it.globalObj(gv)
+			delete(st.mem, o)
+		}
+	}
+	if os.Getenv("NASVERIF_DEBUG") == "init" {
+		fmt.Fprintf(os.Stderr, "[e2] init of %s: unsup=%v\n", p.Pkg.Path(), it.Unsup)
+		for _, m := range p.Members {
+			if gv, ok := m.(*ssa.Global); ok {
+				fmt.Fprintf(os.Stderr, "   %s = %v (written=%v)\n", gv.Name(), st.mem[it.globalObj(gv)], wr[gv])
+			}
+		}
+	}
+	it.Unsup, it.Fuel, it.Writes = saveUnsup, saveFuel, saveWrites
+}
 
 func (it *Interp) globalObj(g *ssa.Global) *MemObj {
 	if o, ok := globalObjs[g]; ok {
@@ -2179,6 +2295,11 @@ func (it *Interp) call(st *state, x *ssa.Call, c *ssa.CallCommon, depth int) Val
 		return OpaqueV{"dynamic call"}
 	}
 	name := callee.String()
+	if it.inInit && (callee.Name() == "init" || strings.HasPrefix(callee.Name(), "init#")) && callee.Pkg != nil && callee != x.Parent() {
+		if callee.Name() == "init" {
+			return nil // imported package initialisers: not needed for this package's own tables
+		}
+	}
 	if m, ok := it.Models[name]; ok {
 		if v, ok := m(it, st, c, args); ok {
 			return v
